@@ -19,6 +19,25 @@ CHECKS = {
             "explicit-state exhaustive enumeration of operand pairs executed on the implementation, coordinate-wise reference oracle"),
 }
 
+CHECKS.update({
+    "C01": ("DESIGN.md 5/C01",
+            "Every (array, per-dimension index menu, spelling, indexing.by option) of the bounded family is executed on the working tree "
+            "and compared with an orthogonal first-match reference selection; absent labels must raise IndexError; tolerance lookups on a "
+            "quarter-step grid. Index-resolution bugs depend on the relative order of 2-3 labels, so small-scope exhaustiveness is decisive.",
+            "trusts mc/ref.py (first match, nearest-within-tol, nested-loop orthogonal selection) and np.arange(n)[ix] for positions; <=3-D quick / 4-D thorough, axis length 2-3",
+            "explicit-state exhaustive enumeration of inputs and configurations on the implementation, lock-step reference model"),
+    "C03": ("DESIGN.md 5/C03",
+            "Every (array kind, index form, RHS form, spelling, inplace) is executed; the post-state is compared cell by cell with the reference "
+            "positions x broadcast RHS, everything else must be byte-identical, the same index is read back; full cast table.",
+            "trusts mc/ref.py positions (shared with C01/C02) and NumPy broadcasting of the RHS; repeated positions with array RHS and cast=False across kinds are unspecified",
+            "explicit-state exhaustive enumeration of (state, assignment) pairs with differential read-back"),
+    "C07": ("DESIGN.md 5/C07",
+            "Every (array, axis position, new label sequence, form, fill, raise_error, method) executed and compared slice by slice with a "
+            "first-match reference; method=left/right against np.searchsorted on the sorted labels (the oracle the property names).",
+            "trusts mc/ref.py and np.searchsorted; axis length 0-4; unique source labels",
+            "explicit-state exhaustive enumeration of inputs on the implementation, lock-step reference model"),
+})
+
 PENDING = ["C01", "C03", "C05", "C06", "C07", "C08", "C09", "C10", "C11", "C12", "C13", "C14", "C15", "C16", "C17", "C18", "C19", "C20"]
 
 
